@@ -134,6 +134,8 @@ def ncswan(rng, with_wind=True, with_depth=True, lonlat_time=False, order=None, 
 
 def wwm(rng, with_wind=True, with_depth=True, order=None):
     nt, ns, nf, nd = int(rng.integers(1, 4)), int(rng.integers(1, 4)), int(rng.integers(3, 12)), int(rng.choice([8, 12, 24, 36]))
+    if rng.random() < 0.3:
+        nf = nd          # square spectral grids: a factor paired with the wrong axis does not fail on shape
     f = _freqs(rng, nf)
     th_from, dd = _dirs(rng, nd, order or str(rng.choice(["ascending", "descending", "rolled"])))
     E = truth_spectra(rng, f, th_from, (nt, ns))
